@@ -14,3 +14,5 @@ ptr_t memset(ptr_t d, u32 c, u64 n){ ll_memset(d,(u8)c,n); return d; }
 u64 wcslen(ptr_t s){ u64 n=0; while(((u32*)s)[n]) n++; return n; }
 ptr_t wmemchr(ptr_t s, u32 c, u64 n){ for(u64 i=0;i<n;i++) if(((u32*)s)[i]==c) return s+4*i; return 0; }
 u32 wmemcmp(ptr_t a, ptr_t b, u64 n){ for(u64 i=0;i<n;i++){ s32 x=((s32*)a)[i], y=((s32*)b)[i]; if(x!=y) return x<y? (u32)-1 : 1u; } return 0; }
+ptr_t wmemcpy(ptr_t d, ptr_t s, u64 n){ ll_memcpy(d,s,4*n); return d; }
+ptr_t wmemmove(ptr_t d, ptr_t s, u64 n){ ll_memmove(d,s,4*n); return d; }
